@@ -134,7 +134,28 @@ func TestSim(t *testing.T) {
 			// a goroutine that is running inside the service's own code and never comes to rest is a verdict, not
 			// trouble: the service spins (livelock). It is reported like any other violation, with the tape
 			// consumed so far as replay (the run is stuck right where that tape ends).
-			if site := spinningSite(string(buf)); site != "" {
+			site, gid := spinningSiteG(string(buf))
+			if site != "" {
+				// a run that is merely slow has a goroutine of the service running at any moment too: only a goroutine
+				// that is still running at the same place five seconds later, with the event log not a line longer
+				// and the same execution still in progress, counts as spinning
+				traceLen, st0 := -1, execStart.Load()
+				if r0 := execRun.Load(); r0 != nil {
+					traceLen = len(r0.Trace)
+				}
+				time.Sleep(5 * time.Second)
+				buf2 := make([]byte, 8<<20)
+				buf2 = buf2[:runtime.Stack(buf2, true)]
+				site2, gid2 := spinningSiteG(string(buf2))
+				len2 := -1
+				if r0 := execRun.Load(); r0 != nil {
+					len2 = len(r0.Trace)
+				}
+				if site2 != site || gid2 != gid || len2 != traceLen || execStart.Load() != st0 {
+					site = ""
+				}
+			}
+			if site != "" {
 				r, tp := execRun.Load(), execTape.Load()
 				v := &Violation{Prop: job.Prop, Class: "livelock", Sig: job.Prop + "|livelock|" + site,
 					Msg: fmt.Sprintf("the run did not come to rest within %v of real time: a goroutine of the service keeps running in %s without ever waiting (holding whatever it holds)", stuckAfter, site)}
